@@ -1448,7 +1448,9 @@ fn fam_coeff(rng: &mut Rng, n: usize, out: &mut Out) {
             &format!("f_coeff {} {} {} {} {} {}", typ, sk, sv.to_bits(), w0.to_bits(), gain.to_bits(), shelf.to_bits()),
             Some(list(&flat.map(|v| v.to_bits()))),
         );
-        if i % 3 == 0 && f0 >= 1e-2 && sv <= 10.0 {
+        // slopes above 0.9 are left to the f64 stream: near the critical slope the radicand is a cancellation and the
+        // binary32 result is ill-conditioned (no meaningful tolerance)
+        if i % 3 == 0 && f0 >= 1e-2 && sv <= 10.0 && !(sk == 2 && sv > 0.9) {
             // the f32 instantiation of the builder (op f_coeff32, binary32 model arithmetic)
             let (w32, sv32, g32, sh32) = (w0 as f32, sv as f32, gain as f32, shelf as f32);
             let mut f = idsp::iir::Filter::<f32>::default();
@@ -1456,10 +1458,14 @@ fn fam_coeff(rng: &mut Rng, n: usize, out: &mut Out) {
             match sk { 0 => { f.q(sv32); } 1 => { f.bandwidth(sv32); } _ => { f.shelf_slope(sv32); } }
             let ba = match typ { 0 => f.lowpass(), 1 => f.highpass(), 2 => f.bandpass(), 3 => f.allpass(), 4 => f.notch(), 5 => f.peaking(), 6 => f.lowshelf(), 7 => f.highshelf(), _ => f.iho() };
             let flat = [ba[0][0], ba[0][1], ba[0][2], ba[1][0], ba[1][1], ba[1][2]];
-            out.emit(
-                &format!("f_coeff32 {} {} {} {} {} {}", typ, sk, sv32.to_bits(), w32.to_bits(), g32.to_bits(), sh32.to_bits()),
-                Some(list(&flat.map(|v| v.to_bits()))),
-            );
+            // non-finite results (the slope-radicand finding class) are compared in the f64 stream only: with NaN in
+            // a polynomial there is no meaningful scale for the binary32 tolerance
+            if flat.iter().all(|v| v.is_finite()) {
+                out.emit(
+                    &format!("f_coeff32 {} {} {} {} {} {}", typ, sk, sv32.to_bits(), w32.to_bits(), g32.to_bits(), sh32.to_bits()),
+                    Some(list(&flat.map(|v| v.to_bits()))),
+                );
+            }
         }
         if i % 2 == 0 && flat.iter().all(|v| v.is_finite()) {
             let fb = list(&flat.map(|v| v.to_bits()));
